@@ -72,6 +72,29 @@ func c05Dense(c *vlib.Ctx) {
 	}
 }
 
+// c05LongHistory: the same visibility oracle on a store with a long past:
+// between the generated operations, bursts of 1100-1400 short-lived messages
+// pass through (enqueue, dequeue, ack) so that id counters, order lists and
+// compaction thresholds reach the values of a long-running gateway while
+// messages sit in every state, and operator requeue/resume happen afterwards.
+func c05LongHistory(c *vlib.Ctx) {
+	w := map[storecheck.Kind]int{storecheck.KEnqueue: 12, storecheck.KDequeue: 14, storecheck.KNack: 5, storecheck.KAck: 3, storecheck.KDead: 6, storecheck.KCancel: 6,
+		storecheck.KRequeue: 6, storecheck.KResume: 5, storecheck.KRequeueDead: 4, storecheck.KRequeueF: 2, storecheck.KResumeF: 2, storecheck.KAdvance: 12, storecheck.KChurn: 5}
+	seqs := c.N(6, 120)
+	for _, be := range []string{"memory", "sqlite"} {
+		churn := 1100
+		if be == "sqlite" {
+			churn = 150 // (SQLite has no in-memory order list; keep its share of the run short)
+		}
+		for s := 0; s < seqs; s++ {
+			r := vlib.Derive(c.Seed, "C05long", be, s)
+			g := storecheck.GenCfg{NIDs: r.Range(6, 24), Routes: stdRoutes[:2], Targets: stdTargets[:2], Weights: w, Churn: churn}
+			storecheck.RunSequence(c, r, storecheck.RunCfg{Backends: []string{be}, Gen: g, Steps: r.Range(80, 140),
+				Label: fmt.Sprintf("C05/long/%s/seq%d", be, s), Props: map[string]bool{"C05": true}, Remap: c05Remap})
+		}
+	}
+}
+
 // c05Pull drives pullapi.Server.Dequeue (batch capped at pull_api.max_batch).
 func c05Pull(c *vlib.Ctx) {
 	dir := c.Scratch()
@@ -244,6 +267,7 @@ func C05(c *vlib.Ctx) {
 	c.Assume("a due message that a retention prune may remove inside the same dequeue call counts as 'may', not 'must'")
 	c05Store(c)
 	c05Dense(c)
+	c05LongHistory(c)
 	c05Pull(c)
 	c05Crash(c)
 	c05Restart(c)
